@@ -15,3 +15,7 @@ func VerifNodes[K comparable, V any](im *Map[K, V]) (nodes int, pinned int) {
 	}
 	return
 }
+
+// VerifLen is Len() as a raw read (monitors look at the map without the owner's lock,
+// which is fine between two scheduling points and must not count as an access of the library).
+func VerifLen[K comparable, V any](im *Map[K, V]) int { return len(im.vals) }
